@@ -327,6 +327,7 @@ def run(tier):
     rule_R8(res, prog)
     rule_R9(res, prog)
     rule_R10(res, prog)
+    rule_R11(res, prog)
     return res.finish()
 
 
@@ -879,3 +880,50 @@ def rule_R10(res, prog):
     if not prim and prog.defined("USE_ED25519"):
         raise AnalysisBroken("C11.R10: the Ed25519 verification primitive was not found")
     res.floor(rid, 3 if prog.defined("USE_ED25519") else 0)
+
+
+def rule_R11(res, prog):
+    """'without reading [or writing] outside the supplied buffer': psVerifySig recovers the signed value into a fixed local
+    array and then compares msgInLen bytes.  Every call that receives that array together with the caller's message length
+    lies under the branch fact msgInLen <= sizeof(array) - the length is the TBSCertificate's when a certificate names a
+    signature algorithm that does not pre-hash (Ed25519) but is issued by an RSA key."""
+    import re
+    from sa import cfgutil as cu
+    rid = "C11.R11"
+    res.rule(rid, "psVerifySig: the scratch array receives / is compared over msgInLen bytes only under msgInLen <= sizeof(array)")
+    fn = prog.fn("psVerifySig")
+    gf = cu.guard_facts(fn)
+    arrays = {}
+    for b, ln, nd in fn.nodes():
+        if nd.get("k") == "decl":
+            v = nd.get("var") or {}
+            mm = re.match(r"^unsigned char\[(\d+)\]$", v.get("t") or "")
+            if mm:
+                arrays[v.get("n")] = int(mm.group(1))
+    n = 0
+    for b, ln, call in fn.calls():
+        args = call.get("a", [])
+        arr = [cu.ftext(a) for a in args if cu.ftext(a) in arrays]
+        lens = [cu.ftext(a) for a in args if cu.ftext(a) == "msgInLen"]
+        if not arr or not lens:
+            continue
+        n += 1
+        size = arrays[arr[0]]
+        bid = b if isinstance(b, int) else b["id"]
+        ok = False
+        for (txt, tr) in gf.get(bid, ()):
+            mm = re.match(r"^\(msgInLen > (\d+)\)$", txt)
+            if mm and not tr and int(mm.group(1)) <= size:
+                ok = True
+            mm = re.match(r"^\(msgInLen <= (\d+)\)$", txt)
+            if mm and tr and int(mm.group(1)) <= size:
+                ok = True
+        f_ = None
+        if not ok:
+            f_ = Finding(PROP, rid, fn.name, "%s(%s, msgInLen) without msgInLen <= %d" % (call.get("fn"), arr[0], size),
+                         "%s:%s psVerifySig(): %s() is given the %d-byte stack array `%s` with the caller's msgInLen and no branch fact "
+                         "bounds msgInLen by the array size: for a certificate whose signature algorithm does not pre-hash the message is "
+                         "the TBSCertificate, and an RSA issuer key (the peer's own second chain certificate) chooses what overruns the "
+                         "array" % (fn.relfile, ln, call.get("fn"), size, arr[0]), file=fn.relfile, line=ln)
+        res.instance(rid, "psVerifySig:%s %s(%s[%d], msgInLen)" % (ln, call.get("fn"), arr[0], size), ok, finding=f_)
+    res.floor(rid, 2)
